@@ -32,11 +32,18 @@ type c10Scenario struct {
 	Var  *int     `json:"var,omitempty"`
 }
 
+type c10Inner struct {
+	A *int64 `parquet:"a"`
+	B int64  `parquet:"b"`
+}
+
 type c10Row struct {
-	K1  *int64  `parquet:"k1"`
-	K2  *string `parquet:"k2"`
-	ID  int32   `parquet:"id"`
-	Pad string  `parquet:"pad"`
+	K1  *int64    `parquet:"k1"`
+	K2  *string   `parquet:"k2"`
+	ID  int32     `parquet:"id"`
+	Pad string    `parquet:"pad"`
+	P   *c10Inner `parquet:"p"` // payload whose nulls sit at different depths
+	L   []int32   `parquet:"l"`
 }
 
 func c10Sorting(cs []c10Col) []parquet.SortingColumn {
@@ -57,6 +64,16 @@ func c10Sorting(cs []c10Col) []parquet.SortingColumn {
 
 func c10RowOf(id int, keys []int) c10Row {
 	row := c10Row{ID: int32(id), Pad: "row-" + strconv.Itoa(id)}
+	switch id % 3 {
+	case 1:
+		row.P = &c10Inner{B: int64(id)}
+	case 2:
+		x := int64(id) * 3
+		row.P = &c10Inner{A: &x, B: int64(id)}
+	}
+	for j := 0; j < id%3; j++ {
+		row.L = append(row.L, int32(id*10+j))
+	}
 	if keys[0] != 0 {
 		x := int64(keys[0])*7 - 10
 		row.K1 = &x
@@ -68,7 +85,27 @@ func c10RowOf(id int, keys []int) c10Row {
 	return row
 }
 
+// c10Intact: the payload columns still belong to this row's id
+func c10Intact(row c10Row) bool {
+	want := c10RowOf(int(row.ID), []int{0, 0})
+	if row.Pad != want.Pad || (row.P == nil) != (want.P == nil) || len(row.L) != len(want.L) {
+		return false
+	}
+	if row.P != nil && (row.P.B != want.P.B || (row.P.A == nil) != (want.P.A == nil) || (row.P.A != nil && *row.P.A != *want.P.A)) {
+		return false
+	}
+	for i := range row.L {
+		if row.L[i] != want.L[i] {
+			return false
+		}
+	}
+	return true
+}
+
 func c10Keys(row c10Row) []int {
+	if !c10Intact(row) {
+		return []int{alien, alien}
+	}
 	k1, k2 := 0, 0
 	if row.K1 != nil {
 		x := *row.K1 + 10
